@@ -260,6 +260,7 @@ fn replay(args: &[String]) -> Result<i32, String> {
     let n: usize = g(1).parse().map_err(|_| "bad N")?;
     let case = checks::Case { prop: prop.clone(), n, ctor: g(2), recipe: g(3), filling: g(4), act: g(5), fault: g(6), extra: g(7) };
     let r = match prop.as_str() {
+        "C01" if case.extra == "io" => with_n!(n, [io::replay_io], &case),
         "C01" | "C02" | "C03" | "C11" | "C17" | "C20" => with_n!(n, [checks::replay_bfs], &case),
         "C05" | "C06" | "C10" => with_n!(n, [faults::replay_fault], &case),
         "C13" => c13::replay_c13(&case),
